@@ -164,6 +164,8 @@ func (c Case) template() string {
 		return "{{if .C}}<" + c.Elem + "{{else}}<" + c.Elem2 + "{{end}} {{if .D}}" + c.Attr + "{{else}}" + c.Attr2 + `{{end}}="{{.V}}">`
 	case "condpartial":
 		return "<" + c.Elem + " " + c.Attr + `="{{if .C}}{{else}}` + c.Attr2 + `{{end}}{{.V}}">`
+	case "rangepartial":
+		return "<" + c.Elem + " " + c.Attr + `="{{range .L}}{{$.V}}x{{end}}">`
 	case "condcontent":
 		return "{{if .C}}<" + c.Elem + ">{{else}}<" + c.Elem2 + ">{{end}}{{.V}}"
 	}
@@ -186,6 +188,10 @@ var probes = func() []probe {
 	for _, w := range []string{"async", "auto", "ltr", "rtl", "eager", "lazy", "_blank", "_self"} {
 		ps = append(ps, probe{"word-" + w, "", w})
 	}
+	// near misses of the listed words: other letter case, Unicode characters that fold to ASCII, surrounding space
+	for _, w := range []string{"ASYNC", "Auto", "RTL", "Lazy", "EAGER", "_BLANK", "_Self", "_blan" + string(rune(0x212a)), "a" + string(rune(0x17f)) + "ync", " ltr", "ltr ", "ltr\n", "lazy\x00"} {
+		ps = append(ps, probe{"nearword-" + w, "", w})
+	}
 	return ps
 }()
 
@@ -207,6 +213,31 @@ func normalizedURL(v string) bool {
 // judge: may the engine, for a position whose reviewed class is cls, answer probe p with (out, err)?
 // elemName/attrName locate the value in the output. Returns "" if acceptable.
 func judge(cls string, c Case, p probe, out string, err error, bc, bd bool) string {
+	if strings.HasPrefix(cls, "Range:") {
+		// <E A="{{range .L}}{{$.V}}x{{end}}"> with two elements: from the second iteration on the action follows the
+		// static text "x": enumerated and URL-like contexts must refuse, typed-only contexts admit their own type only
+		cls = cls[len("Range:"):]
+		if cls == "Rejected" {
+			if err == nil {
+				return fmt.Sprintf("position not in the reviewed policy, but probe %s was accepted: output %q", p.name, out)
+			}
+			return ""
+		}
+		if err != nil {
+			return ""
+		}
+		if own, ok := typedOnly[cls]; ok {
+			if p.kind != own {
+				return fmt.Sprintf("class %s is typed-only, but probe %s was accepted inside a range: output %q", cls, p.name, out)
+			}
+			return ""
+		}
+		switch cls {
+		case "None", "URLSet":
+			return ""
+		}
+		return fmt.Sprintf("class %s: an action that follows the static text \"x\" from the second loop iteration on must be refused, probe %s gave %q", cls, p.name, out)
+	}
 	partialStatic := ""
 	if strings.HasPrefix(cls, "Partial:") {
 		// {{if}}{{else}}STATIC{{end}}{{.V}} rendered with the static branch: a static partial value
@@ -390,6 +421,8 @@ func classOf(c Case, bc, bd bool) string {
 		return contentClass(elem)
 	case "dq", "sq", "partial", "condelem", "condattr", "condboth", "condattrempty":
 		return attrClass(elem, attr, c.Rel)
+	case "rangepartial":
+		return "Range:" + attrClass(elem, attr, c.Rel)
 	case "condpartial":
 		if bc {
 			return attrClass(elem, attr, c.Rel)
@@ -423,7 +456,7 @@ func check(c Case) evid.Outcome {
 	for _, p := range probes {
 		for _, b := range branches {
 			cls := classOf(c, b.c, b.d)
-			out, err := tx.Exec(t, map[string]interface{}{"V": tx.Typed(p.kind, p.s), "C": b.c, "D": b.d})
+			out, err := tx.Exec(t, map[string]interface{}{"V": tx.Typed(p.kind, p.s), "C": b.c, "D": b.d, "L": []int{1, 2}})
 			if err == nil {
 				accepted++
 			}
@@ -504,7 +537,7 @@ func tableCases() []Case {
 	// conditional shapes over representative rows of every class
 	reps := [][2]string{{"a", "href"}, {"a", "title"}, {"a", "target"}, {"div", "dir"}, {"div", "id"}, {"div", "style"}, {"img", "src"}, {"img", "srcset"}, {"img", "loading"}, {"script", "src"}, {"script", "async"}, {"iframe", "srcdoc"}, {"form", "action"}, {"input", "accept"}, {"div", "data-x"}, {"link", "href"}, {"div", "onclick"}, {"foo", "title"}}
 	for _, r1 := range reps {
-		cs = append(cs, Case{Pos: "condattrempty", Elem: r1[0], Attr: r1[1]}, Case{Pos: "condpartial", Elem: r1[0], Attr: r1[1], Attr2: "x"}, Case{Pos: "condpartial", Elem: r1[0], Attr: r1[1], Attr2: "java"}, Case{Pos: "condpartial", Elem: r1[0], Attr: r1[1], Attr2: "/p/"})
+		cs = append(cs, Case{Pos: "rangepartial", Elem: r1[0], Attr: r1[1]}, Case{Pos: "condattrempty", Elem: r1[0], Attr: r1[1]}, Case{Pos: "condpartial", Elem: r1[0], Attr: r1[1], Attr2: "x"}, Case{Pos: "condpartial", Elem: r1[0], Attr: r1[1], Attr2: "java"}, Case{Pos: "condpartial", Elem: r1[0], Attr: r1[1], Attr2: "/p/"})
 		for _, r2 := range reps {
 			cs = append(cs, Case{Pos: "condboth", Elem: r1[0], Attr: r1[1], Elem2: r2[0], Attr2: r2[1]})
 			cs = append(cs, Case{Pos: "condelem", Elem: r1[0], Elem2: r2[0], Attr: r1[1]}, Case{Pos: "condattr", Elem: r1[0], Attr: r1[1], Attr2: r2[1]})
@@ -659,7 +692,7 @@ func fixName(n string, attr bool) string {
 }
 
 func gen(t *rapid.T) Case {
-	pos := rapid.SampledFrom([]string{"content", "dq", "dq", "sq", "unquoted", "partial", "tagsuffix", "attrname", "attrsuffix", "condelem", "condattr", "condcontent", "condboth", "condattrempty", "condpartial", "dq-link"}).Draw(t, "pos")
+	pos := rapid.SampledFrom([]string{"content", "dq", "dq", "sq", "unquoted", "partial", "tagsuffix", "attrname", "attrsuffix", "condelem", "condattr", "condcontent", "condboth", "condattrempty", "condpartial", "rangepartial", "dq-link"}).Draw(t, "pos")
 	c := Case{Pos: pos, Elem: genName(t, "elem", false)}
 	if pos == "dq-link" {
 		c.Pos, c.Elem, c.Attr = "dq", rapid.SampledFrom([]string{"link", "LINK", "Link"}).Draw(t, "link"), rapid.SampledFrom([]string{"href", "HREF", "src", "hreflang", "data-href"}).Draw(t, "linkattr")
